@@ -28,7 +28,7 @@ def quiesceConfl : Nat → Conflated → Conflated
 
 
 def parseIn : String → Option In
-  | "n" => some .nil | "b" => some .never | "0" => some .live | "1" => some .dead | _ => none
+  | "n" => some .nil | "b" => some .never | "0" => some .live | "1" => some .dead | "d" => some .dead | _ => none
 
 def parseNats (s : String) : Option (List Nat) :=
   if s == "-" then some [] else (s.splitOn ",").mapM String.toNat?
@@ -74,9 +74,23 @@ def b01 (b : Bool) : String := if b then "1" else "0"
 
 def step (x : S) (w : List String) : Option (S × String × List String) :=
   match w with
+  | ["now", d] =>
+    -- the result's state at the instant the constructor returned: determined when the constructor returned the primary itself or
+    -- an already-finished child; otherwise a callback may or may not have run yet
+    match x.o with
+    | .combineConst e _ => if (d == "1") == e then some (x, "ok", ["immediate_state_checked"]) else
+        some (x, s!"rejected: at return the result reported err={d}, the pre-check decides err={b01 e} there and then", [])
+    | _ => some (x, "ok", [])
+  | ["chainstorm", n] => do
+    -- BB.Props.C16.chain_exactly_once: for every order of the two cancellations and of the two hooks, f is called exactly once
+    let n ← n.toNat?
+    some (x, s!"once={n} never=0 twice=0", ["chain_storm"])
   | ["mkchain", o, c] =>
     let s := quiesceChain 10 (Chain.init (o == "1") (c == "1"))
     some ({ o := .chain s }, s!"calls={s.calls}", if o == "1" && c == "1" then ["both_pre"] else [])
+  | ["mkchainw", o, c] =>
+    let s := quiesceChain 10 (Chain.init (o == "1") (c == "1"))
+    some ({ o := .chain s }, s!"calls={s.calls}", (if o == "1" && c == "1" then ["both_pre"] else []) ++ ["chain_over_wrapper_context"])
   | ["cancel", which] =>
     match x.o with
     | .chain s =>
@@ -114,7 +128,10 @@ def step (x : S) (w : List String) : Option (S × String × List String) :=
         (if pre.isEmpty then [] else ["input_cancelled_after_wiring_during_build"]) ++
         (if inputs.any (· == .never) then ["never_input"] else []) ++
         (if idx.any (· == none) && !ttoks.isEmpty then ["input_cancelled_before_its_check"] else []))
-  | "mkcombine" :: prim :: others =>
+  | "mkcombine" :: prim0 :: others0 =>
+    -- "d" = already past its deadline: finished like "1" (Err() = DeadlineExceeded instead of Canceled)
+    let prim := if prim0 == "d" then "1" else prim0
+    let others := others0.map (fun t => if t == "d" then "1" else t)
     if prim == "1" then some ({ o := .combineConst true, primC := true }, "err=1", ["primary_pre"])
     else if others.any (· == "1") then some ({ o := .combineConst true (prim == "n") }, "err=1", ["other_pre"])
     else
@@ -165,7 +182,8 @@ def step (x : S) (w : List String) : Option (S × String × List String) :=
     | .combineConst _ _ | .combine _ _ _ => some (x, "primary", [])
     | .confl _ _ | .conflConst => some (x, "first", [])
     | _ => none
-  | "mkconflated" :: inputs =>
+  | "mkconflated" :: inputs0 =>
+    let inputs := inputs0.map (fun t => if t == "d" then "1" else t)
     let live := inputs.filter (· == "0")
     if live.isEmpty then some ({ o := .conflConst }, "err=1", ["all_pre"])
     else
